@@ -29,13 +29,17 @@ func TestC18Build(t *testing.T) {
 	sub := lab.Sub("accepted-builds", "rapid: configurations in which every documented constraint holds (same generator as load-vs-reference, no faults) with an enabled plugin chain of the documented plugins "+
 		"{logging, size_limit, gzip, headers, request-id} (30%: any built-in incl. custom-auth) whose numeric options are typed as YAML int (`5`), float (`5.0`) or — invalid — quoted string (`\"5\"`), "+
 		"20% of the entries without a usable config (`config` absent, `config:` null, `config: null`, `config: ~`, `config: {}`); LoadConfig, then loadbalancer.NewLoadBalancer (always stopped) and "+
-		"plugins.BuildChain as cmd/helios does; oracle: load succeeds; no panic; with int/float typing only, the build succeeds (documented forms are accepted); with a string-typed number, or a gzip / custom-auth / headers entry without config, either a build error or success is allowed — never a panic; "+
+		"plugins.BuildChain as cmd/helios does; string options (custom-auth apiKey, headers values, admin token, names, paths) from the documentation's examples, a table of values with $ ${..} %% # \\ : {} [] and other characters that are ordinary in a YAML scalar, and random strings; oracle: load succeeds; no panic; the returned configuration's documented string values equal what yaml.v3 reads from the text; the admin API mux built from it admits \"Authorization: Bearer <token of the file>\" and no neighbouring token, the plugin chain built from it (over a stub) passes a request with the file's apiKey, rejects neighbouring keys, and the headers entries set the file's values; with int/float typing only, the build succeeds (documented forms are accepted); with a string-typed number, or a gzip / custom-auth / headers entry without config, either a build error or success is allowed — never a panic; "+
 		"non-trivial = a YAML-typed plugin option or an entry without usable config is present")
 	sub.Floor("bare-config", 0.15)
 	sub.NontrivialFloor(0.50)
 	sub.Floor("typ=int", 0.08)
 	sub.Floor("typ=float", 0.15)
 	sub.Floor("typ=string", 0.05)
+	sub.Floor("str:dollar", 0.25)
+	sub.Floor("means:admin-token", 0.10)
+	sub.Floor("means:api-key", 0.03)
+	sub.Floor("means:header-set", 0.08)
 	ld := newLoader(t)
 	lab.Check(t, sub, 1500, 30000, func(rt *rapid.T) {
 		m := GenValid(rt, []string{"int", "int", "float", "float", "string"})
@@ -54,17 +58,32 @@ func TestC18Build(t *testing.T) {
 				labels = append(labels, "typ="+p.Typ, p.Name+"/"+p.Typ)
 			}
 		}
+		if h := renderingSelfCheck(m, text); h != "" {
+			rt.Fatalf("%s\n%s", h, text)
+		}
 		cfg, err := ld.Load([]byte(text))
-		var stage, panicked string
+		var stage, panicked, meaning string
 		var berr error
+		var diffs []string
 		if err == nil {
 			stage, berr, panicked = Build(cfg)
+			diffs, _ = RoundTrip([]byte(text), cfg)
+			if panicked == "" && len(diffs) == 0 {
+				var checked []string
+				meaning, checked = Means([]byte(text), cfg)
+				labels = append(labels, checked...)
+			}
 		}
 		if berr != nil {
 			labels = append(labels, "build-error")
 		}
+		labels = append(labels, stringLabels(m)...)
 		sub.Case(m, TypedPluginOption(m) || HasBare(m), dedup(labels)...)
 		switch {
+		case len(diffs) > 0:
+			rt.Fatalf("LoadConfig accepted the file but returned other values than the file says: %s\n%s", strings.Join(diffs, "; "), text)
+		case meaning != "":
+			rt.Fatalf("an accepted configuration does not mean what the file says: %s\n%s", meaning, text)
 		case err != nil:
 			rt.Fatalf("LoadConfig rejected a configuration in which every documented constraint holds: %v\n%s", err, text)
 		case panicked != "":
@@ -143,7 +162,7 @@ func prepareCorpusItem(sub *lab.SubCheck, it CorpusItem) (text []byte, complete 
 func TestC18Corpus(t *testing.T) {
 	const name = "corpus-loads-and-builds"
 	sub := lab.Sub(name, "helios.yaml, helios.docker.yaml and every fenced ```yaml block of README.md and docs/*.md of the repository under test: complete configurations (server + backends present) are loaded byte for byte, "+
-		"partial snippets are merged at YAML level over a minimal valid base (port + one backend); oracle: LoadConfig succeeds AND NewLoadBalancer + BuildChain succeed without panic; complete configurations are additionally started "+
+		"partial snippets are merged at YAML level over a minimal valid base (port + one backend); oracle: LoadConfig succeeds AND NewLoadBalancer + BuildChain succeed without panic AND the documented string values of the returned configuration equal what yaml.v3 reads from the text AND token / apiKey / header values mean what the file says (admin mux and plugin chain built in-process); complete configurations are additionally started "+
 		"as the real binary (ports and backend addresses substituted) and must serve through to the backend with every enabled ancillary listener answering; non-trivial = complete configuration, or a snippet that enables a feature or configures plugins")
 	var rc struct {
 		ID string `json:"id"`
@@ -183,6 +202,12 @@ func TestC18Corpus(t *testing.T) {
 		}
 		if berr != nil {
 			lab.Violation(t, name, id, "%s (%s) loads but does not start: %s: %v\n%s", it.ID, strings.Join(labels, ","), stage, berr, text)
+		}
+		if diffs, _ := RoundTrip(text, cfg); len(diffs) > 0 {
+			lab.Violation(t, name, id, "%s loads, but the returned configuration differs from what the file says: %s\n%s", it.ID, strings.Join(diffs, "; "), text)
+		}
+		if meaning, _ := Means(text, cfg); meaning != "" {
+			lab.Violation(t, name, id, "%s loads, but does not mean what the file says: %s\n%s", it.ID, meaning, text)
 		}
 		if complete {
 			if v := runCorpusBinary(t, text); v.Outcome != "serving" {
